@@ -127,3 +127,42 @@ Definition chk_fista (r : res (@fstate Q * list (Ext Q) * Ext Q * nat)) (o : obs
   | Err _ => or_err o
   | Ok (s, obj, stop, n) => negb (or_err o) && all2 qclose (f_w s) (or_w o) && all2 ext_eqq obj (or_obj o) && ext_eqq stop (or_stop o)
   end.
+
+(* ---------------- AndersonAcceleration: the real class with np.linalg.solve replaced by a dyadic rule ---------------- *)
+Require Import SK.Skel.Anderson.
+(* z_k = 1 if the k-th difference vector is zero else 2; LinAlgError when the first difference is zero *)
+Definition mock_solve_z (U : list (list Q)) : option (list Q) :=
+  match U with
+  | [] => None
+  | u0 :: _ => if Qeqb (vdot u0 u0) 0 then None else Some (map (fun u => if Qeqb (vdot u u) 0 then 1 else 2) U)
+  end.
+
+(* run a sequence of calls; outputs per call: (w_out, Xw_out, extrapolated?) *)
+Fixpoint aa_run (K : nat) (st : @aa_state Q) (calls : list (list Q * list Q)) : res (list (list Q * list Q * bool)) :=
+  match calls with
+  | [] => Ok []
+  | (w, Xw) :: rest =>
+      bind (aa_step K mock_solve_z st w Xw) (fun r => let '(w', Xw', e, st') := r in
+      bind (aa_run K st' rest) (fun t => Ok ((w', Xw', e) :: t)))
+  end.
+Definition chk_aa (r : res (list (list Q * list Q * bool))) (o : list (list Q * list Q * bool)) : bool :=
+  match r with
+  | Err _ => false
+  | Ok l => all2 (fun a b => all2 qclose (fst (fst a)) (fst (fst b)) && all2 qclose (snd (fst a)) (snd (fst b)) && Bool.eqb (snd a) (snd b)) l o
+  end.
+
+(* GramCD end to end with the MODELLED accelerator (K = 5 as in the source) *)
+Definition gram_case_aa (X : list (list Q)) (y : list Q) (max_iter : nat) (tol : Q) (use_acc greedy : bool)
+    (score : list Q -> list Q -> list Z -> res (list (Ext Q))) (prox : Q -> Q -> Z -> res Q)
+    (value : list Q -> res (Ext Q)) (w_init : option (list Q)) : res (@gout Q (@gstate Q (@aa_state Q))) :=
+  bind (gram_setup X y) (fun D =>
+  gsolve {| gc_max_iter := max_iter; gc_tol := tol; gc_use_acc := use_acc |}
+         {| gk_score := fun w g => score w g (zrange 0 (zlen w));
+            gk_epoch := fun w g => _gram_cd_epoch score prox (gd_Q D) w g greedy;
+            gk_pen_value := value; gk_acc_init := aa_init; gk_acc_step := aa_step 5 mock_solve_z |} D w_init).
+Definition chk_gram_aa (r : res (@gout Q (@gstate Q (@aa_state Q)))) (o : obs_run) : bool :=
+  match r with
+  | Err _ => or_err o
+  | Ok g => negb (or_err o) && all2 qclose (gs_w (g_s g)) (or_w o) && all2 ext_eqq (g_obj g) (or_obj o)
+            && ext_eqq (g_stop g) (or_stop o)
+  end.
